@@ -61,7 +61,7 @@ def from_sphinx(inv: SphinxInventoryType) -> InventoryType:
         domain_name, obj_type = domain_obj_name.split(":", 1)
         objs.setdefault(domain_name, {}).setdefault(obj_type, {})
         for refname, refdata in data.items():
-            project, version, uri, text = refdata
+            project, version, uri, text = _sphinx_item_fields(refdata)
             objs[domain_name][obj_type][refname] = {
                 "loc": uri,
                 "text": None if (not text or text == "-") else text,
@@ -87,12 +87,31 @@ def to_sphinx(inv: InventoryType) -> SphinxInventoryType:
                     # in the Sphinx format the location includes the base url
                     loc = posixpath.join(base_url, loc)
                 objs.setdefault(f"{domain_name}:{obj_type}", {})[refname] = (
-                    inv["name"],
-                    inv["version"],
-                    loc,
-                    refdata["text"] or "-",
+                    _sphinx_item(
+                        inv["name"], inv["version"], loc, refdata["text"] or "-"
+                    )
                 )
     return objs
+
+
+def _sphinx_item(project: str, version: str, uri: str, text: str):
+    """Create an item of a Sphinx inventory, of the type the installed Sphinx uses."""
+    try:
+        from sphinx.util.inventory import _InventoryItem
+    except ImportError:
+        # sphinx<8.2 (or not installed) uses a tuple
+        return (project, version, uri, text)
+    return _InventoryItem(
+        project_name=project, project_version=version, uri=uri, display_name=text
+    )
+
+
+def _sphinx_item_fields(item) -> tuple[str, str, str, str]:
+    """Return the (project, version, uri, text) of an item of a Sphinx inventory."""
+    if hasattr(item, "uri"):
+        # sphinx>=8.2 uses an item class, and deprecates unpacking it like a tuple
+        return item.project_name, item.project_version, item.uri, item.display_name
+    return item
 
 
 def load(stream: IO, base_url: str | None = None) -> InventoryType:
@@ -376,7 +395,7 @@ def filter_sphinx_inventories(
                 continue
             for target in data:
                 if match_with_wildcard(target, targets):
-                    project, version, loc, text = data[target]
+                    project, version, loc, text = _sphinx_item_fields(data[target])
                     yield (
                         InvMatch(
                             inv=inv_name,
